@@ -93,9 +93,8 @@ Proof. vm_compute. repeat split. eexists. split; reflexivity. Qed.
     with the SAME numbering; likewise with the node multipliers written out too.  This is the shape of the
     documented polymer examples, e.g. {[#PMA]([#PEO][#PEO])|3}.
     The general form - units inside other branches and behind sibling branches - is C05_branch_partial_gen below.
-    Missing from the full statement: nested branches / rings inside units and units where a branch was closed
-    since the outermost open branch was opened (refuted below: nested_in_unit, ring_in_unit, stale_recipe),
-    texts without braces. *)
+    Missing from the full statement: nested branches / rings inside units (refuted below: nested_in_unit,
+    ring_in_unit), texts without braces. *)
 Theorem C05_branch_partial : forall fo l, segs_ok fo l = true ->
   read_cgsmiles fo (segs_text l) = read_cgsmiles fo (base_text (segs_long l)).
 Proof. exact reader_units_shorthand. Qed.
@@ -128,9 +127,9 @@ Proof. vm_compute. repeat split. eexists. split; reflexivity. Qed.
     inside any number of open branches.  Side condition [gsegs_ok]: the items are items of the grammar, parentheses
     balance, a multiplied branch names its anchor and the order of the bond that reaches its first node, and the
     recipe table is in order where it stands ([gtrack]: since the outermost open branch was opened, nothing was
-    closed except sibling branches of the multiplied branch's own anchor directly in front of it - the complement
-    is the defect class stale_recipe) and it contains neither ring markers nor nested branches (ring_in_unit,
-    nested_in_unit).  Then the reader model reads the shorthand and the longhand (branch and anchor written out n
+    closed except sibling branches of the multiplied branch's own anchor directly in front of it - this flat form
+    keeps that condition; the form with closings, [g2track] below, no longer needs it since fix ee9caf1) and it
+    contains neither ring markers nor nested branches (ring_in_unit, nested_in_unit).  Then the reader model reads the shorthand and the longhand (branch and anchor written out n
     times) as the SAME graph with the SAME numbering. *)
 Theorem C05_branch_partial_gen : forall fo l, gsegs_ok fo l = true ->
   read_cgsmiles fo (gsegs_text l) = read_cgsmiles fo (base_text (gsegs_long l)).
@@ -162,15 +161,16 @@ Proof. vm_compute. repeat split. eexists. split; reflexivity. Qed.
     Reader/ReaderG2Ast.v) asks: every branch chain is non-empty; a branch that carries a multiplier is a simple chain
     (no ring marker, no nested branch); the anchor of a branch multiplied by n >= 2 that is its first branch carries no
     ring marker (ring_in_unit otherwise); and the flat form of the AST passes [g2segs_ok] - items and names are those of the
-    grammar, parentheses balance, and where a multiplied branch stands the recipe table is in order ([g2track]: since the
-    outermost open branch was opened nothing was closed except sibling branches of the multiplied branch's own anchor
-    directly in front of it; the complement is stale_recipe).  The multiplied branch may stand at any depth, behind sibling
-    branches, and may be followed by closing parentheses.  Then the reader model on the SHORTHAND returns exactly the
+    grammar, parentheses balance, and a multiplied branch names its anchor and the pending bond order ([g2track]; NO condition
+    on what was closed before it any more: since fix ee9caf1 the expansion starts at the closing anchor's own entry of the
+    recipe table, and the proof only needs that the table's keys are pairwise different, [ReaderG2.ninv] - the former
+    class stale_recipe lies inside [units_ok], Example C05_units_ok_former_stale).  The multiplied branch may stand at any
+    depth, behind sibling branches and behind closed branches, and may be followed by closing parentheses.  Then the reader model on the SHORTHAND returns exactly the
     denotation of the LONGHAND ([denote] runs the token machine on [expand_branches a], the branch multipliers written
     out); and for well-formed ASTs reading the shorthand = reading the longhand, same graph, same numbering.
     Missing from the full statement (named): (a) branches with a multiplier that are not simple chains - the three open
     classes nested_in_unit / ring_in_unit, and the two harmless shapes "multiplier 1 on a branch with nested branches or
-    rings" and "the one nested shape the code expands correctly" (bounded only: C05_small); (b) stale_recipe; (c) NODE
+    rings" and "the one nested shape the code expands correctly" (bounded only: C05_small); (c) NODE
     multipliers: C05_ast_expand_partial below writes them out too ([expand]).
     Texts with braces (base graphs) and without (coarse fragment texts) are both covered. *)
 Theorem C05_branch_ast_partial : forall fo braces a, units_ok fo a = true -> read_cgsmiles fo (print braces a) = denote fo a.
@@ -199,10 +199,9 @@ Theorem C05_branch_flat_closings_nobrace : forall fo l, g2segs_ok fo l = true ->
 Proof. exact reader_sim_g2_nobrace. Qed.
 (** BOUNDED coverage of the side condition: on the complete enumerated list, every well-formed AST outside the three
     open classes whose multiplied branches are simple chains satisfies [units_ok] (so the unbounded theorem applies to
-    it); [units_ok] also holds for 100 enumerated ASTs that the coarser AST predicate cls_stale_recipe flags -
-    class_C05 no longer does *)
+    it); this includes every enumerated AST of the repaired class stale_recipe (cls_stale_recipe) *)
 Theorem C05_units_cover_small :
-  forallb (fun a => negb (wf fo_none a && Nat.eqb (class_C05 true a) 0 && negb (nonsimple_mult a) && negb (cls_stale_recipe a)) || units_ok fo_none a) small_c05 = true.
+  forallb (fun a => negb (wf fo_none a && Nat.eqb (class_C05 true a) 0 && negb (nonsimple_mult a)) || units_ok fo_none a) small_c05 = true.
 Proof. exact C05_units_cover_small_list. Qed.
 Theorem C05_units_cover_small_not_vacuous :
   (2000 <=? length (filter (fun a => wf fo_none a && units_ok fo_none a && has_branch_mult a) small_c05))%nat = true.
@@ -269,6 +268,12 @@ Proof.
 Qed.
 (** {[#Q]([#A]([#X])[#D]([#B])|2[#E])} and {[#X]([#A]([#B]([#Q]))([#C])|2)} (stale_recipe, repaired: the slice of the
     recipe table starts at the entry of the closing anchor): read as the longhand, identity numbering *)
+Example C05_units_ok_former_stale :
+  units_ok fo0 [Item (S "Q") [] None None [Branch [Item (S "A") [] None None [Branch [nd "X"] None None];
+                                                   Item (S "D") [] None None [Branch [nd "B"] two None]; nd "E"] None None]] = true
+  /\ units_ok fo0 [Item (S "X") [] None None [Branch [Item (S "A") [] None None
+                      [Branch [Item (S "B") [] None None [Branch [nd "Q"] None None]] None None; Branch [nd "C"] two None]] None None]] = true.
+Proof. vm_compute. split; reflexivity. Qed.
 Example C05_fixed_stale_recipe :
   model_C05 fo0 true [Item (S "Q") [] None None [Branch [Item (S "A") [] None None [Branch [nd "X"] None None];
                                                           Item (S "D") [] None None [Branch [nd "B"] two None]; nd "E"] None None]] None = 0%nat
